@@ -240,6 +240,8 @@ func ReplayHistory(tw *TraceWriter, id int, h []Action) {
 		dummyF, dummyC := 0, 0
 		bA.Form = randomForms(vi.Seed, &nforms, &ncb)
 		bB.Form = randomForms(vi.Seed+7, &dummyF, &dummyC)
+		bA.DoSplit = randomDoSplits(vi.Seed, &nforms, &ncb)
+		bB.DoSplit = randomDoSplits(vi.Seed+7, &dummyF, &dummyC)
 		bA.Callback = func(string) {
 			if rendering {
 				cbRender++
@@ -261,6 +263,8 @@ func ReplayHistory(tw *TraceWriter, id int, h []Action) {
 		d1, d2, d3, d4 := 0, 0, 0, 0
 		bA.Form = randomForms(int64(id)*31+seedFromEnv(), &d1, &d2)
 		bB.Form = randomForms(int64(id)*37+seedFromEnv(), &d3, &d4)
+		bA.DoSplit = randomDoSplits(int64(id)*31+seedFromEnv(), &d1, &d2)
+		bB.DoSplit = randomDoSplits(int64(id)*37+seedFromEnv(), &d3, &d4)
 	}
 	prer := func(c jen.Code) jen.Code {
 		if prerender && c != nil {
